@@ -1032,6 +1032,25 @@ func (u *udpCase) opPkt(client *net.UDPAddr, unknown []*specKey, opts pktOpts) {
 			out.Oracle("C04", "second association created for %s while one was alive", cs)
 		}
 	}
+	// a client address without a live association (the zone of a scoped address is part of the
+	// address) must get its own association: its datagram must neither travel on another client's
+	// socket nor be judged under another client's key
+	if !hasAssoc && natadd == nil {
+		for _, p := range got {
+			for c, port := range u.natPort {
+				if port == p.from.Port && c != cs {
+					out.Oracle("C04", "datagram of %s, which has no association, left from the socket of %s", cs, c)
+				}
+			}
+		}
+		if len(opens) > 0 && len(got) == 0 {
+			for _, e := range evs {
+				if e.kind == "search" && !e.flag {
+					out.Oracle("C04", "datagram of the new client %s opens under a configured key but was judged as if it belonged to another client's association (no key search among the configured keys succeeded)", cs)
+				}
+			}
+		}
+	}
 	for _, p := range got {
 		lbl, known := u.portLbl[p.from.Port]
 		if !known {
